@@ -240,7 +240,39 @@ def gen_3p(draw):
 
 @st.composite
 def gen_line(draw):
-    return ("LINE", draw(gen.lattice_point(6)), draw(gen.direction(4)))
+    mode = draw(st.integers(0, 5))
+    d = draw(gen.direction(4))
+    if mode == 0:
+        # a line through the origin written with its support vector equal to (a multiple of) its direction
+        k = draw(st.sampled_from((F(1), F(1), F(2), F(-1), F(1, 2))))
+        return ("LINE", X.mul(k, d), d)
+    if mode == 1:
+        return ("LINE", (F(0), F(0), F(0)), d)
+    return ("LINE", draw(gen.lattice_point(6)), d)
+
+
+@st.composite
+def gen_3p_far(draw):
+    """planes through three far-apart quarter-lattice points near the top of the coordinate range: long edge
+    vectors, normals with one small component"""
+    def pt():
+        return tuple(F(draw(st.integers(-32, 32)), 4) for _ in range(3))
+
+    c = [F(s_) * F(draw(st.integers(28, 32)), 4) for s_ in (draw(st.sampled_from((1, -1))), draw(st.sampled_from((1, -1))), draw(st.sampled_from((1, -1))))]
+    p1 = (c[0], draw(st.sampled_from((F(31, 4), F(-8), F(15, 2)))), F(draw(st.integers(28, 32)), 4))
+    p2 = (-c[0], F(draw(st.integers(28, 32)), 4), p1[2] + F(draw(st.integers(-1, 1)), 4))
+    p3 = pt()
+    if draw(st.booleans()):
+        p3 = (c[0], p1[1] + F(draw(st.integers(-2, 2)), 4), p1[2] - F(draw(st.integers(0, 2)), 4))
+    pts = list(draw(st.permutations([p1, p2, p3])))
+    perm = draw(st.sampled_from(((0, 1, 2), (1, 2, 0), (2, 0, 1), (0, 2, 1))))
+    pts = [tuple(q[i] for i in perm) for q in pts]
+    n = X.cross(X.sub(pts[1], pts[0]), X.sub(pts[2], pts[0]))
+    assume(not X.is_zero(n))
+    # inside the margin domain: the three points are far from collinear
+    l1, l2 = X.sub(pts[1], pts[0]), X.sub(pts[2], pts[0])
+    assume(X.dot(n, n) * 10 ** 4 > X.dot(l1, l1) * X.dot(l2, l2))
+    return ("3P", pts[0], pts[1], pts[2])
 
 
 def enum_gf(shard, nshards):
@@ -275,5 +307,6 @@ def strata(tier):
         Stratum("point-normal", "hyp", gen_pn(), n),
         Stratum("general-form", "hyp", gen_gf(), n),
         Stratum("three-points/two-vectors", "hyp", gen_3p(), n),
+        Stratum("three-points/far-apart", "hyp", gen_3p_far(), n),
         Stratum("line", "hyp", gen_line(), n),
     ]
